@@ -257,6 +257,17 @@ def recon_checks(ctx):
                 out.append((["C16"], "not_reproduced", "3-D SenseRecon does not reproduce the image (rel err %.3g)" % (np.linalg.norm(xr - x3) / np.linalg.norm(x3))))
             if np.linalg.norm(xtv - x3) > 5e-3 * np.linalg.norm(x3):
                 out.append((["C16"], "not_reproduced", "3-D TotalVariationRecon(lamda=0) does not reproduce the image (rel err %.3g)" % (np.linalg.norm(xtv - x3) / np.linalg.norm(x3))))
+            # documented objective with the FULL finite-difference gradient (all image axes), lamda > 0
+            G3, _ = linop_build.dense(sp.linop.FiniteDifference(list(sh3)), check_i=False)
+            lam3 = 0.3
+            n_eval += 1
+            with warnings.catch_warnings():
+                warnings.simplefilter("ignore")
+                xt3 = sp.mri.app.TotalVariationRecon(y3.copy(), m3, lam3, show_pbar=False, max_iter=4000).run()
+            obj3 = lambda v: 0.5 * np.linalg.norm(E3 @ v.ravel() - y3.ravel()) ** 2 + lam3 * np.abs(G3 @ v.ravel()).sum()
+            xr3 = ref_pdhg(E3, y3.ravel(), lam3, G3, iters=8000)
+            if obj3(xt3) - obj3(xr3) > 2e-3 * max(1.0, obj3(xr3)):
+                out.append((["C16", "C14"], "recon_objective", "3-D TotalVariationRecon(lamda=%s): documented objective %.6g, independent reference %.6g" % (lam3, obj3(xt3), obj3(xr3))))
         # TV and L1-wavelet (Haar on 4x4 is unitary): independent numpy primal-dual reference
         Gop = sp.linop.FiniteDifference(list(shape))
         Gm, _ = linop_build.dense(Gop, check_i=False)
